@@ -352,19 +352,32 @@ def run(chk):
                 "(c) a free-running ThreadSanitizer program (4 threads: lock() and try_lock() paths of both classes around plain counters; "
                 "Identifiable objects incl. the real MemoryPool created, looked up and destroyed concurrently). Non-trivial = a step that performed a shared-memory access; "
                 "distinct = distinct (scenario, schedule prefix) for random schedules, distinct transitions for the enumerated graphs.")
-    # 1. translator: declarations of the working tree → Gen/SpinlockDecls.lean
-    try:
-        decls = spinlock_decls.regenerate()
-    except (spinlock_decls.TranslateError, OSError) as e:
-        chk.report("spin:translator", "primitiv/core/spinlock.h no longer has the shape the model of C19 describes: %s" % e,
-                   {"translator": "translate/spinlock_decls.py", "error": str(e)}, found_input=False)
+    # 1. translator: declarations of the working tree → Gen/SpinlockDecls.lean; 2. theorems.
+    # Gen/SpinlockDecls.lean is one file shared by all runs: C19 runs against different trees (VERIF_REPO) are
+    # serialised from the regeneration to the end of the build + audit, so that the theorems are checked against
+    # the table of THIS tree.
+    for attempt in range(4):
+        with build.Lock("gen-spinlock-decls"):
+            try:
+                decls = spinlock_decls.regenerate()
+            except (spinlock_decls.TranslateError, OSError) as e:
+                chk.report("spin:translator", "primitiv/core/spinlock.h / mixins no longer have the shape the model of C19 describes: %s" % e,
+                           {"translator": "translate/spinlock_decls.py", "error": str(e)}, found_input=False)
+                return
+            chk.oblig = None
+            chk.obligations(MODS, drivers=[FAMILY])
+            gen_now = open(spinlock_decls.OUT).read()
+        if gen_now == spinlock_decls.lean_text(decls):
+            break
+        # rewritten meanwhile by a process that does not take the lock (e.g. ./setup): check again
+    else:
+        chk.report("spin:gen-clobbered", "Gen/SpinlockDecls.lean kept being rewritten by another process while the theorems were being checked",
+                   {"file": spinlock_decls.OUT}, found_input=False)
         return
     chk.extra_cov["translated_decls"] = {c: {"members": {n: " ".join(st + [ty]) for n, (ty, st) in d["table"].items()}, "try_lock": d.get("try_lock"), "unlock": d.get("unlock"),
                                                 "guarded": d.get("guarded")}
                                             for c, d in list(decls.items())[:2] + list(decls["mixins"].items())}
     chk.extra_cov["decls_differ_from_golden"] = spinlock_decls.differs_from_golden(decls)
-    # 2. theorems
-    chk.obligations(MODS, drivers=[FAMILY])
     broken = chk.broken_obligations()
     if not os.path.exists(vrun.drv_exe(FAMILY)) or broken:
         lean.lake(["build", "drv_" + FAMILY])
@@ -456,7 +469,23 @@ def run(chk):
     dis_x, judged_x, crashes_x = chk.correspond(FAMILY, HARNESS_DEV, xstreams, stateful=True, judge=mon, nontrivial=nontrivial,
                                                  timeout=600, post=lambda l, i, m: (mon.reset(), (i, m))[1])
     exe_dev = build.build_harness(HARNESS_DEV)
+    if dis_x:
+        # the comparison of a stream stops at the first disagreement: search the rest on the implementation alone
+        for lines in xstreams:
+            mon.reset()
+            outs, _ = vrun.run_impl(exe_dev, lines, stateful=True, timeout=600)
+            for i, (l, o) in enumerate(zip(lines, outs)):
+                if o == "skipped":
+                    break
+                w = mon(l, o)
+                if w:
+                    judged_x.append({"lines": lines[:i + 1], "line": l, "impl": o, "what": w})
+                    break
+    seen_x = set()
     for j in judged_x:
+        if violation_key(j["what"]) + ":" + j["line"].split()[1] in seen_x:
+            continue
+        seen_x.add(violation_key(j["what"]) + ":" + j["line"].split()[1])
         key = violation_key(j["what"]) + ":" + j["line"].split()[1]
         lines = scenario_of(j["lines"])
 
